@@ -31,6 +31,22 @@ CHECKS = {
    text="property-based search with the widest definition generator and arbitrary byte-string vectors over all modes (parse, help, version, completion revisions 0/1/7/8/9 with/without name, markdown/html/manpage) and run histories; panics are caught in-process, aborts/stack overflow/process exit/hangs are detected by the parent through per-case slot files and a watchdog",
    note="termination cannot be established by testing: bounded generation + 180 s no-progress watchdog, hangs reported as inconclusive (exit 2). `--bpaf-complete-*` items are excluded (documented process exits)",
    tech="property-based testing / fuzz-style totality check (catch_unwind + watchdog) with a history-replay purity oracle"),
+ "C06": dict(
+   text="enumeration of every wrapper stack of depth <=3 (quick: <=2) x 4 contexts x 6 typed leaves x 6 invalid texts, plus property-based sampling with catch flags and unrelated fields; invalid-present must fail with the conversion/guard text, absent must default exactly when the stack can produce a value from nothing",
+   note="trusted: the abstract evaluation of wrapper semantics on absence (harness/src/props/c06.rs absent_value), written from the documentation of each wrapper; FromStr error texts are obtained by calling the same FromStr",
+   tech="exhaustive enumeration of wrapper stacks + property-based sampling; oracle: by-construction expectation per stack"),
+ "C07": dict(
+   text="property-based search over choices of 2-4 alternatives of six kinds under bare/optional/many/some, lines built from scenarios with all items shuffled; independent evaluation of the documented winner rule",
+   note="trusted: the rule evaluator in harness/src/props/c07.rs (leftmost item wins, ties to the first listed, many/some in order of leftmost item); optional over always-succeeding alternatives is skipped (value not fixed by the documentation)",
+   tech="property-based testing against a small reference evaluator of the documented alternative rule"),
+ "C08": dict(
+   text="property-based search over command trees of depth <=3 with structural misplacement mutations; reference grammar model + by-construction values; help after the k-th command name compared with the help of that level built alone, at every depth",
+   note="trusted: reference model (levels) and standalone help rendering as the reference text",
+   tech="property-based testing against the reference grammar model, plus differential help text per command level"),
+ "C19": dict(
+   text="property-based search over four adjacent-group shapes x wrappers with 0-3 blocks placed among other options, with block mutations (cut short, split by a foreign item, lead not first, members reordered); by-construction expectation and a contiguity predicate on every accepted value",
+   note="trusted: the generator's block bookkeeping (which item belongs to which block, which item is foreign)",
+   tech="property-based testing: by-construction values for well-formed lines, must-fail mutants, validity predicate (contiguous run starting at the lead) on accepted lines"),
 }
 
 PENDING_REASON = "check not built yet in this session (designed in DESIGN.md section 4; property-based testing applies to it)"
